@@ -179,10 +179,15 @@ def _method_facts(o):
 def _has_body(o):
     return any(c.get("kind") in ("CompoundStmt", "CXXTryStmt") for c in o.get("inner") or [])
 
-def _extract_class(cls):
-    hdr, cpps = CLASSES[cls]
+def _extract_class(cls, spec=None):
+    if spec is None:
+        hdr, cpps = CLASSES[cls]
+        sub = INTERNAL
+    else:
+        sub, hdr, cpps = spec
+    _p = lambda name: os.path.join(common.REPO, "src", "xercesc", sub, name)
     res = {"fields": [], "types": {}, "public_methods": set(), "methods": {}}
-    objs = _dump(_path(hdr), cls)
+    objs = _dump(_p(hdr), cls)
     rec = [o for o in objs if o.get("kind") == "CXXRecordDecl" and o.get("name") == cls and o.get("completeDefinition")]
     if len(rec) != 1:
         raise AstError("class %s: expected one complete definition, found %d" % (cls, len(rec)))
@@ -223,7 +228,7 @@ def _extract_class(cls):
                 res["methods"][key] = f
     add_methods(objs)                       # inline definitions in the header
     for cpp in cpps:
-        add_methods(_dump(_path(cpp), cls + "::"))
+        add_methods(_dump(_p(cpp), cls + "::"))
     return res
 
 def _ser(x):
@@ -237,30 +242,47 @@ def _ser(x):
         return [_ser(i) for i in x]
     return x
 
-def extract():
-    """-> dict class -> {fields, types, bases, public_methods, methods{name -> {assigned, touched, called, selfcalls, rhs}}} (JSON-able)"""
+PARSER_CLASSES = {   # class -> (directory, header, [cpp files])
+    "AbstractDOMParser": ("parsers", "AbstractDOMParser.hpp", ["AbstractDOMParser.cpp"]),
+    "XercesDOMParser":   ("parsers", "XercesDOMParser.hpp",   ["XercesDOMParser.cpp"]),
+    "DOMLSParserImpl":   ("parsers", "DOMLSParserImpl.hpp",   ["DOMLSParserImpl.cpp"]),
+    "SAXParser":         ("parsers", "SAXParser.hpp",         ["SAXParser.cpp"]),
+    "SAX2XMLReaderImpl": ("parsers", "SAX2XMLReaderImpl.hpp", ["SAX2XMLReaderImpl.cpp"]),
+}
+
+def extract_group(tag, classes):
+    """-> dict class -> {fields, types, bases, public_methods, methods{name -> {assigned, touched, called, selfcalls, rhs}}} (JSON-able),
+    cached in .work keyed by the sha256 of the sources involved"""
     h = hashlib.sha256()
     h.update(open(os.path.abspath(__file__), "rb").read())
-    for cls, (hdr, cpps) in sorted(CLASSES.items()):
+    for cls, (sub, hdr, cpps) in sorted(classes.items()):
         for f in [hdr] + cpps:
             try:
-                h.update(open(_path(f), "rb").read())
+                h.update(open(os.path.join(common.REPO, "src", "xercesc", sub, f), "rb").read())
             except OSError as e:
                 raise AstError("cannot read %s: %s" % (f, e))
     key = h.hexdigest()[:24]
     cdir = os.path.join(common.WORK, "astcache")
     os.makedirs(cdir, exist_ok=True)
-    cpath = os.path.join(cdir, "scanner-%s.json" % key)
+    cpath = os.path.join(cdir, "%s-%s.json" % (tag, key))
     if os.path.exists(cpath):
         try:
             return json.load(open(cpath))
         except ValueError:
             pass
+    names = list(classes)
     with ThreadPoolExecutor(max_workers=5) as ex:
-        rs = list(ex.map(_extract_class, list(CLASSES)))
-    out = {c: _ser(r) for c, r in zip(CLASSES, rs)}
+        rs = list(ex.map(lambda c: _extract_class(c, classes[c]), names))
+    out = {c: _ser(r) for c, r in zip(names, rs)}
     tmp = cpath + ".%d" % os.getpid()
     with open(tmp, "w") as f:
         json.dump(out, f)
     os.replace(tmp, cpath)
     return out
+
+def extract_parsers():
+    return extract_group("parser", PARSER_CLASSES)
+
+def extract():
+    """the scanner classes"""
+    return extract_group("scanner", {c: (INTERNAL, hdr, cpps) for c, (hdr, cpps) in CLASSES.items()})
